@@ -107,6 +107,47 @@ def add_unused_macro(project, position, rng, paste_existing=False):
     return p.renumber(), "unused MACRO %s at top-level position %d" % (name, i)
 
 
+def add_url_pasting(project, position, rng):
+    """C20: the path-less HTTP methods of one URL block are moved into a macro that the block pastes (the BASE, same catalog
+    by C07); the second project has, at a top-level position, a fresh `URL /freshN` block that pastes the SAME macro: it adds
+    the interactions `http VERB /freshN` (and the automatic tag @freshN, or entries in the tags the methods name) and
+    nothing else.  Returns (base, added_project, description, added entries, tags that may change) or None."""
+    if not isinstance(project, Project):
+        project = _lower(project)
+    base = project.copy()
+    tops = base.files[base.root]
+    cands = []
+    for t in tops:
+        if t.kind == "URL" and t.params and not any(c.kind == "Protocol" for c in t.children):
+            ms = [c for c in t.children if c.kind == "HTTP" and not c.params]
+            if ms and not any(d.kind in ("PASTE", "INCLUDE", "Path") for c in ms for d in c.walk()):
+                cands.append((t, ms))
+    if not cands:
+        return None
+    url, ms = cands[rng.randrange(len(cands))]
+    used = {d.params[0] for _, d in base.nodes() if d.kind == "MACRO" and d.params}
+    paths = {d.params[0] for _, d in base.nodes() if d.kind in ("URL", "HTTP") and d.params}
+    while True:
+        k = rng.randrange(100000)
+        mname, fresh = "@crud%d" % k, "/fresh%d" % k
+        if mname not in used and not any(q.startswith(fresh) for q in paths):
+            break
+    first = url.children.index(ms[0])
+    url.children = [c for c in url.children if c not in ms]
+    url.children.insert(first, Node("PASTE", "PASTE", [mname]))
+    tops.append(Node("MACRO", "MACRO", [mname], children=ms, force_parens=True, unit="macro:" + mname))
+    base = base.renumber()
+    added = base.copy()
+    tops2 = added.files[added.root]
+    ok = [i for i in range(1, len(tops2) + 1) if not (i < len(tops2) and tops2[i].hint)]
+    i = ok[position % len(ok)]
+    tops2.insert(i, Node("URL", "URL", [fresh], children=[Node("PASTE", "PASTE", [mname])], unit="block:fresh"))
+    added = added.renumber()
+    tagged = sorted({q for c in ms for d in c.walk() if d.kind == "Tags" for q in d.params})
+    ent = {"interactions": ["http %s %s" % (c.keyword, fresh) for c in ms], "tags": ["@" + fresh[1:]]}
+    return base, added, "fresh URL %s pasting %s (the %d methods of URL %s) at top-level position %d" % (fresh, mname, len(ms), url.params[0], i), ent, tagged
+
+
 # ---------------------------------------------------------------------------------------
 # C20: locality
 
